@@ -630,29 +630,47 @@ func (t *Terminfo) TPuts(w io.Writer, s string) {
 			return
 		}
 		val := s[:end]
-		s = s[end+1:]
 		padus := 0
 		unit := time.Millisecond
 		dot := false
+		digits := false
+		flags := false
+		valid := true
 	loop:
 		for i := range val {
 			switch val[i] {
 			case '0', '1', '2', '3', '4', '5', '6', '7', '8', '9':
+				if flags {
+					valid = false
+					break loop
+				}
+				digits = true
 				padus *= 10
 				padus += int(val[i] - '0')
 				if dot {
 					unit /= 10
 				}
 			case '.':
-				if !dot {
-					dot = true
-				} else {
+				if dot || flags {
+					valid = false
 					break loop
 				}
+				dot = true
+			case '*', '/':
+				// proportional and mandatory padding flags
+				flags = true
 			default:
+				valid = false
 				break loop
 			}
 		}
+		if !valid || !digits {
+			// Not a padding specification ($<n[.m][*][/]>), so it is
+			// ordinary text: keep the marker and carry on after it.
+			_, _ = io.WriteString(w, "$<")
+			continue
+		}
+		s = s[end+1:]
 
 		// Curses historically uses padding to achieve "fine grained"
 		// delays. We have much better clocks these days, and so we
